@@ -107,29 +107,63 @@ func (router *Router) node() *pathpattern.Node {
 // FindRoute extracts the route and parameters of an http.Request
 func (router *Router) FindRoute(req *http.Request) (*routers.Route, map[string]string, error) {
 	method, url := req.Method, req.URL
-	doc := router.doc
 
-	// Get server
-	servers := doc.Servers
-	var server *openapi3.Server
-	var remainingPath string
-	var pathParams map[string]string
+	servers := router.doc.Servers
 	if len(servers) == 0 {
-		remainingPath = url.Path
-	} else {
-		var paramValues []string
-		server, paramValues, remainingPath = servers.MatchURL(url)
-		if server == nil {
-			return nil, nil, &routers.RouteError{
-				Reason: routers.ErrPathNotFound.Error(),
-			}
+		return router.findRouteUnder(method, nil, nil, url.Path)
+	}
+
+	// Several declared servers may match the URL (https://h.t and https://h.t/v1): each of them
+	// gives a reading of the path. A reading that ends at a literal template wins over one
+	// that ends at a templated one; otherwise the servers count in the order they are declared.
+	rawURL := url.String()
+	if i := strings.IndexByte(rawURL, '?'); i >= 0 {
+		rawURL = rawURL[:i]
+	}
+	var (
+		foundRoute  *routers.Route
+		foundParams map[string]string
+		firstErr    error
+	)
+	for _, server := range servers {
+		paramValues, remainingPath, ok := server.MatchRawURL(rawURL)
+		if !ok {
+			continue
 		}
+		route, pathParams, err := router.findRouteUnder(method, server, paramValues, remainingPath)
+		if err != nil {
+			if firstErr == nil {
+				firstErr = err
+			}
+			continue
+		}
+		if route != nil && !strings.Contains(route.Path, "{") {
+			return route, pathParams, nil
+		}
+		if foundRoute == nil {
+			foundRoute, foundParams = route, pathParams
+		}
+	}
+	if foundRoute != nil {
+		return foundRoute, foundParams, nil
+	}
+	if firstErr != nil {
+		return nil, nil, firstErr
+	}
+	return nil, nil, &routers.RouteError{Reason: routers.ErrPathNotFound.Error()}
+}
+
+// findRouteUnder looks the remaining path up below one server (nil: the document declares none).
+func (router *Router) findRouteUnder(method string, server *openapi3.Server, serverParamValues []string, remainingPath string) (*routers.Route, map[string]string, error) {
+	doc := router.doc
+	var pathParams map[string]string
+	if server != nil {
 		pathParams = make(map[string]string)
 		paramNames, err := server.ParameterNames()
 		if err != nil {
 			return nil, nil, err
 		}
-		for i, value := range paramValues {
+		for i, value := range serverParamValues {
 			name := paramNames[i]
 			pathParams[name] = value
 		}
